@@ -98,8 +98,12 @@ Definition pow10 (n : Z) : float :=
 (* ---------- ToUnit, ToBCH, MulF64 ---------- *)
 Definition lit_ToUnit_8 : Z := nth 0 lits_Amount_ToUnit 0.
 
+(* AmountUnit is a Go int (64 bits on every supported target): u+8 and the negation in Format
+   wrap around.  Amount(1).ToUnit(AmountUnit(math.MaxInt64)) divides by Pow10(MinInt64+7) = 0. *)
+Definition wrap64 (z : Z) : Z := (z + 2 ^ 63) mod 2 ^ 64 - 2 ^ 63.
+
 (* float64(a) / math.Pow10(int(u+8)) *)
-Definition to_unit (a u : Z) : float := Bdiv mode_NE (of_Z a) (pow10 (u + lit_ToUnit_8)).
+Definition to_unit (a u : Z) : float := Bdiv mode_NE (of_Z a) (pow10 (wrap64 (u + lit_ToUnit_8))).
 Definition to_bch (a : Z) : float := to_unit a c_AmountBCH.
 Definition mul_f64 (a : Z) (f : float) : Z := round (Bmult mode_NE (of_Z a) f).
 
@@ -155,6 +159,20 @@ Definition fmt_fixed (f : float) (p : Z) : list N :=
       dec_text s n p
   end.
 
+(* strconv.FormatInt(z, base): lower-case digits, '-' for negatives.  The base is the literal of
+   AmountUnit.String in the source. *)
+Definition lit_String_base : Z := nth 0 lits_AmountUnit_String 0.
+Fixpoint digits_fuel (b : Z) (fuel : nat) (n : Z) (acc : list N) : list N :=
+  match fuel with
+  | O => acc
+  | S f => let d := n mod b in
+           let acc' := ((if (d <? 10)%Z then 48 else 87) + Z.to_N d)%N :: acc in
+           if n / b =? 0 then acc' else digits_fuel b f (n / b) acc'
+  end.
+Definition fmt_int (b z : Z) : list N :=
+  let digs n := digits_fuel b (S (Z.to_nat (Z.log2 n))) n [] in
+  if z <? 0 then 45%N :: digs (- z) else digs z.
+
 (* AmountUnit.String *)
 Definition unit_string (u : Z) : list N :=
   if u =? c_AmountMegaBCH then [77; 66; 67; 72]%N                      (* "MBCH" *)
@@ -163,7 +181,7 @@ Definition unit_string (u : Z) : list N :=
   else if u =? c_AmountMilliBCH then [109; 66; 67; 72]%N               (* "mBCH" *)
   else if u =? c_AmountMicroBCH then [206; 188; 66; 67; 72]%N          (* "μBCH" (UTF-8) *)
   else if u =? c_AmountSatoshi then [83; 97; 116; 111; 115; 104; 105]%N (* "Satoshi" *)
-  else [49; 101]%N ++ dec_Z u ++ [32; 66; 67; 72]%N.                   (* "1e" + FormatInt(u) + " BCH" *)
+  else [49; 101]%N ++ fmt_int lit_String_base u ++ [32; 66; 67; 72]%N. (* "1e" + FormatInt(u, 10) + " BCH" *)
 
 Definition lit_Format_8 : Z := nth 1 lits_Amount_Format 0.
 
@@ -171,7 +189,7 @@ Definition lit_Format_8 : Z := nth 1 lits_Amount_Format 0.
    A negative precision asks strconv for the shortest text that parses back to the
    same float: that printer is a dependency, passed as [shortest]. *)
 Definition format (shortest : float -> list N) (a u : Z) : list N :=
-  let p := - (u + lit_Format_8) in
+  let p := wrap64 (- wrap64 (u + lit_Format_8)) in
   (if p <? 0 then shortest (to_unit a u) else fmt_fixed (to_unit a u) p) ++ 32%N :: unit_string u.
 
 (* What a correct shortest printer must print for amounts up to the cap (theorems
@@ -179,5 +197,40 @@ Definition format (shortest : float -> list N) (a u : Z) : list N :=
 Definition format_spec (a u : Z) : list N :=
   let p := - (u + lit_Format_8) in
   (if p <? 0 then exact_text a (- p) else fmt_fixed (to_unit a u) p) ++ 32%N :: unit_string u.
+
+(* The property's text for units Satoshi and above, with no float in it: the exact decimal of
+   a * 10^-(u+8) with the fewest digits, a space, the label (theorem format_is_exact_text). *)
+Definition format_exact_spec (a u : Z) : list N :=
+  exact_text a (u + lit_Format_8) ++ 32%N :: unit_string u.
+
+(* ---------- reading a decimal text back (specification side only) ---------- *)
+(* digits [0-9]+ as a natural number; None on any other character or on the empty string *)
+Fixpoint read_digits (s : list N) (acc : Z) : option Z :=
+  match s with
+  | [] => Some acc
+  | c :: t => if ((48 <=? c) && (c <=? 57))%N then read_digits t (acc * 10 + Z.of_N (c - 48)) else None
+  end.
+Definition read_nat (s : list N) : option Z := match s with [] => None | _ => read_digits s 0 end.
+
+Fixpoint split_dot (s : list N) : list N * option (list N) :=
+  match s with
+  | [] => ([], None)
+  | c :: t => if (c =? 46)%N then ([], Some t)
+              else let (i, f) := split_dot t in (c :: i, f)
+  end.
+
+(* "-"? digits ("." digits)?  |->  (negative?, M, j): the text denotes (-1)^neg * M / 10^j *)
+Definition read_dec (s : list N) : option (bool * Z * Z) :=
+  let (neg, body) := match s with 45%N :: t => (true, t) | _ => (false, s) end in
+  let (ip, fp) := split_dot body in
+  match read_nat ip, fp with
+  | Some i, None => Some (neg, i, 0)
+  | Some i, Some fd =>
+      match read_nat fd with
+      | Some f => Some (neg, i * 10 ^ Z.of_nat (length fd) + f, Z.of_nat (length fd))
+      | None => None
+      end
+  | None, _ => None
+  end.
 
 Definition amount_string (shortest : float -> list N) (a : Z) : list N := format shortest a c_AmountBCH.
